@@ -2,16 +2,18 @@
    Statements only.  Model: model/Container.v, one step = one shared-memory access, any number
    of threads (each adds / removes / recovers under its own owner id and owns one ContainerState),
    any schedule, any capacity, sequentially consistent interleaving.  The theorems are about
-   programs without abandoned calls (`crash_free`); the crash clause is at the end. *)
+   `crash_ok` programs: calls may be abandoned after any number of accesses (the owner died
+   inside add / remove), provided the program then recovers that owner (predicate true) --
+   `crash_free` programs are a special case (c10_crash_free_is_ok). *)
 From V Require Import model.Base model.Conc model.Events model.Container.
-From V Require Import proofs.ContainerBase proofs.ContainerInv proofs.ContainerStep proofs.ContainerProofs proofs.ContainerQuiet.
+From V Require Import proofs.ContainerBase proofs.ContainerInv proofs.ContainerStep proofs.ContainerDirty proofs.ContainerProofs proofs.ContainerQuiet.
 Open Scope N_scope.
 
 (* never torn: whenever thread t's snapshot lists slot i (odd generation) -- at any time except
    inside the copy window of that very slot, in particular after update_state returned -- the
    pair (generation, payload) is one an add published in slot i *)
 Theorem c10_no_torn : forall c d0 d1 d2 progs g ls t i,
-  crash_free progs -> reachable step (init c d0 d1 d2 progs) (g, ls) ->
+  crash_ok progs -> reachable step (init c d0 d1 d2 progs) (g, ls) ->
   refreshing (pc (ls t)) i = false -> odd (rgen (ls t) i) = true ->
   In (rgen (ls t) i, rdata (ls t) i) (published g i).
 Proof. intros; eapply no_torn; eauto. Qed.
@@ -20,14 +22,14 @@ Print Assumptions c10_no_torn.
 (* ... and that pair is exactly the data the entry was added with: a generation is published at
    most once per slot, published generations are odd and not ahead of the slot *)
 Theorem c10_published_once : forall c d0 d1 d2 progs g ls i a b b',
-  crash_free progs -> reachable step (init c d0 d1 d2 progs) (g, ls) ->
+  crash_ok progs -> reachable step (init c d0 d1 d2 progs) (g, ls) ->
   In (a, b) (published g i) -> In (a, b') (published g i) -> b = b' /\ odd a = true /\ a <= gens g i.
 Proof. intros; eapply published_exact; eauto. Qed.
 Print Assumptions c10_published_once.
 
 (* the mechanism: payload memory is only written while the slot's generation is even *)
 Theorem c10_write_only_when_even : forall c d0 d1 d2 progs g ls t v n,
-  crash_free progs -> reachable step (init c d0 d1 d2 progs) (g, ls) ->
+  crash_ok progs -> reachable step (init c d0 d1 d2 progs) (g, ls) ->
   pc (ls t) = AddWrite v n -> odd (gens g n) = false.
 Proof. intros; eapply write_only_when_even; eauto. Qed.
 Print Assumptions c10_write_only_when_even.
@@ -39,7 +41,7 @@ Print Assumptions c10_write_only_when_even.
    is not listed, an added entry is (or something newer); and if the call returned false the
    snapshot before the call already was >= gm (an earlier call had seen it). *)
 Theorem c10_no_ghost_notice : forall c d0 d1 d2 progs g ls t i gm ch e,
-  crash_free progs -> reachable step (init c d0 d1 d2 progs) (g, ls) ->
+  crash_ok progs -> reachable step (init c d0 d1 d2 progs) (g, ls) ->
   In (i, gm, ch, e) (oplog g) -> e < ustart (ls t) -> pc (ls t) = Idle ->
   gm <= rgen (ls t) i /\ (ulast (ls t) = false -> gm <= uprev (ls t) i).
 Proof.
@@ -51,12 +53,12 @@ Print Assumptions c10_no_ghost_notice.
 
 (* the log is sound and snapshots never run ahead of the container *)
 Theorem c10_log_sound : forall c d0 d1 d2 progs g ls i gm ch e,
-  crash_free progs -> reachable step (init c d0 d1 d2 progs) (g, ls) ->
+  crash_ok progs -> reachable step (init c d0 d1 d2 progs) (g, ls) ->
   In (i, gm, ch, e) (oplog g) -> i < cap g /\ gm <= gens g i /\ ch <= change g /\ e < clock g.
 Proof. intros; eapply log_sound; eauto. Qed.
 Print Assumptions c10_log_sound.
 Theorem c10_snapshot_not_ahead : forall c d0 d1 d2 progs g ls t i,
-  crash_free progs -> reachable step (init c d0 d1 d2 progs) (g, ls) -> rgen (ls t) i <= gens g i.
+  crash_ok progs -> reachable step (init c d0 d1 d2 progs) (g, ls) -> rgen (ls t) i <= gens g i.
 Proof. intros; eapply snapshot_not_ahead; eauto. Qed.
 Print Assumptions c10_snapshot_not_ahead.
 
@@ -67,7 +69,7 @@ Definition ex_progs (t : nat) : list cop :=
 Definition ex_sched : list nat := repeat 0%nat 14 ++ repeat 1%nat 6 ++ repeat 0%nat 30 ++ repeat 1%nat 8.
 Example c10_nonvacuous :
   let cf := fst (run step ex_sched (init 1 7 8 9 ex_progs)) in
-  crash_free ex_progs /\ reachable step (init 1 7 8 9 ex_progs) cf /\
+  crash_ok ex_progs /\ reachable step (init 1 7 8 9 ex_progs) cf /\
   pc (snd cf 1%nat) = Idle /\ rgen (snd cf 1%nat) 0 = 3 /\ rdata (snd cf 1%nat) 0 = 2 /\
   published (fst cf) 0 = [(1, 1); (3, 2)] /\ ulast (snd cf 1%nat) = true /\
   exists ch e, In (0, 2, ch, e) (oplog (fst cf)) /\ e < ustart (snd cf 1%nat).
@@ -77,11 +79,61 @@ Proof.
 Qed.
 Print Assumptions c10_nonvacuous.
 
-(* ---- the crash clause: a call abandoned after k accesses (the owner died inside it) ---- *)
-(* at quiescence a free slot is not listed: FALSE of the code as it is.  Witness (known finding
-   container:crashed-remove-leaves-entry): the owner dies inside remove() after the index release
-   (4 accesses) and before the generation CAS; recover() of that owner does not find the released
-   index, the generation stays odd. *)
+(* ---- the crash clause ---- *)
+(* Nothing in flight, every owner that died inside a call has been recovered (no thread dirty).
+   Then (1) a listed slot (odd generation) is owned, unless a call was abandoned on it inside the
+   known window (remove between index release and generation CAS: `orph`, set by `abandon` for
+   exactly those pcs); (2) an owned slot is a complete entry, and its owner is not one that died
+   and was recovered (`dead`).  So after recover(owner) a quiescent refresh -- which by
+   c10_quiescent_exact lists exactly the odd slots -- lists no entry of that owner and no
+   half-added entry, whatever access the owner died at, the window excepted. *)
+Theorem c10_no_ghost_after_recover : forall c d0 d1 d2 progs g ls i,
+  crash_ok progs -> reachable step (init c d0 d1 d2 progs) (g, ls) ->
+  (forall u, reader_pc (pc (ls u)) /\ dirty (ls u) = false) ->
+  (odd (gens g i) = true -> cells g i <> EMPTY \/ exists u, In i (orph (ls u))) /\
+  (cells g i <> EMPTY ->
+     odd (gens g i) = true /\ i < cap g /\
+     exists u e, cells g i = owner_of u e /\ e <= epoch (ls u) /\ ~ In e (dead (ls u))).
+Proof. exact quiet_registry. Qed.
+Print Assumptions c10_no_ghost_after_recover.
+
+(* the completion of recover(dead owner) is what puts the owner's epoch into `dead` *)
+Theorem c10_recover_marks_dead : forall t g l acc lk,
+  pc l = RecIncChange acc lk -> fuse l = None -> dirty l = true ->
+  exists g' l' es, step t g l = Some (g', l', es) /\ dirty l' = false /\ epoch l' = epoch l + 1 /\ In (epoch l) (dead l') /\
+                   pc l' = Idle.
+Proof. exact recover_marks_dead. Qed.
+Print Assumptions c10_recover_marks_dead.
+
+Theorem c10_crash_free_is_ok : forall progs, crash_free progs -> crash_ok progs.
+Proof. exact crash_free_is_ok. Qed.
+Print Assumptions c10_crash_free_is_ok.
+
+(* non-vacuity: the owner dies inside add() after 9 accesses (payload written, generation still
+   even); recover; quiescence: slot 0 free, generation 0 (not listed), epoch 0 dead, nothing orphaned *)
+Definition cr_progs (t : nat) : list cop :=
+  match t with O => [CAdd 1 (Some 9%nat); CRec true; CAdd 2 None] | S O => [CUpd] | _ => [] end.
+Definition cr_end := fst (run step (repeat 0%nat 50 ++ repeat 1%nat 9) (init 1 7 8 9 cr_progs)).
+Example c10_crash_nonvacuous :
+  crash_ok cr_progs /\ ~ crash_free cr_progs /\
+  reachable step (init 1 7 8 9 cr_progs) (fst cr_end, snd cr_end) /\
+  (forall u, reader_pc (pc (snd cr_end u)) /\ dirty (snd cr_end u) = false) /\
+  dead (snd cr_end 0%nat) = [0] /\ orph (snd cr_end 0%nat) = [] /\ epoch (snd cr_end 0%nat) = 1 /\
+  gens (fst cr_end) 0 = 1 /\ datas (fst cr_end) 0 = 2 /\ cells (fst cr_end) 0 = owner_of 0 1 /\
+  rgen (snd cr_end 1%nat) 0 = 1 /\ rdata (snd cr_end 1%nat) 0 = 2.
+Proof.
+  split; [intros [|[|t]]; reflexivity|].
+  split; [intros H; specialize (H 0%nat); discriminate|].
+  split; [exists (repeat 0%nat 50 ++ repeat 1%nat 9); unfold cr_end; rewrite <- surjective_pairing; reflexivity|].
+  split; [intros [|[|u]]; vm_compute; auto|].
+  vm_compute. repeat split; auto.
+Qed.
+Print Assumptions c10_crash_nonvacuous.
+
+(* the known window (known finding container:crashed-remove-leaves-entry): without the `orph`
+   exception the statement is FALSE of the code as it is.  Witness: the owner dies inside remove()
+   after the index release (4 accesses) and before the generation CAS; recover() of that owner
+   does not find the released index, the generation stays odd; the slot is in `orph`. *)
 Definition c10_free_slot_not_listed_full : Prop :=
   forall c d0 d1 d2 progs g ls,
     reachable step (init c d0 d1 d2 progs) (g, ls) ->
@@ -102,15 +154,22 @@ Proof.
   specialize (H Hq 0 eq_refl). vm_compute in H. discriminate.
 Qed.
 Print Assumptions c10_free_slot_not_listed_refuted.
-(* strongest proved part: for programs without abandoned calls the theorems above; that recover
-   after a crash at any other access of add / remove leaves no ghost is covered by the tie's
-   oracle on the enumerated abandon points (A<id>k1..13, R<j>k1..7), not by a theorem. *)
-Theorem c10_crash_clause_partial : forall c d0 d1 d2 progs g ls t i,
-  crash_free progs -> reachable step (init c d0 d1 d2 progs) (g, ls) ->
-  refreshing (pc (ls t)) i = false -> odd (rgen (ls t) i) = true ->
-  In (rgen (ls t) i, rdata (ls t) i) (published g i) /\ rgen (ls t) i <= gens g i.
-Proof. intros; split; [eapply no_torn|eapply snapshot_not_ahead]; eauto. Qed.
-Print Assumptions c10_crash_clause_partial.
+Example c10_window_witness_is_orphan :
+  crash_ok d2_progs /\
+  let cf := fst (run step (repeat 0%nat 40) (init 1 7 8 9 d2_progs)) in
+  orph (snd cf 0%nat) = [0] /\ cells (fst cf) 0 = EMPTY /\ gens (fst cf) 0 = 1 /\ dirty (snd cf 0%nat) = false.
+Proof. split; [intros [|t]; reflexivity|]. vm_compute. auto. Qed.
+Print Assumptions c10_window_witness_is_orphan.
+(* the proved part: a free slot is listed only if it is such an orphan *)
+Theorem c10_free_slot_not_listed_partial : forall c d0 d1 d2 progs g ls i,
+  crash_ok progs -> reachable step (init c d0 d1 d2 progs) (g, ls) ->
+  (forall u, reader_pc (pc (ls u)) /\ dirty (ls u) = false) ->
+  cells g i = EMPTY -> odd (gens g i) = true -> exists u, In i (orph (ls u)).
+Proof.
+  intros c d0 d1 d2 progs g ls i Hcf Hr HQ Hc Ho.
+  destruct (proj1 (quiet_registry c d0 d1 d2 progs g ls i Hcf Hr HQ) Ho) as [H|H]; [contradiction|exact H].
+Qed.
+Print Assumptions c10_free_slot_not_listed_partial.
 
 (* ---- eventually exact ---- *)
 (* Start in any reachable state in which no call is in flight; let any schedule s run in which only
@@ -118,16 +177,15 @@ Print Assumptions c10_crash_clause_partial.
    interleaving).  Then the container does not change, and a thread t that has consumed at least
    one update_state of its program and is back at Idle (it ran a refresh to completion) holds, for
    every slot, exactly the container's generation and -- for the listed (odd) slots -- payload;
-   the listed slots are exactly the slots whose index is owned; its change counter is current. *)
+   its change counter is current.  (Which slots are listed: c10_no_ghost_after_recover below.) *)
 Theorem c10_quiescent_exact : forall c d0 d1 d2 progs g ls s g' ls' t,
-  crash_free progs -> reachable step (init c d0 d1 d2 progs) (g, ls) ->
-  (forall u, pc (ls u) = Idle) ->
+  crash_ok progs -> reachable step (init c d0 d1 d2 progs) (g, ls) ->
+  (forall u, pc (ls u) = Idle /\ dirty (ls u) = false) ->
   (forall u, In u s -> upd_only (prog (ls u)) = true) ->
   fst (run step s (g, ls)) = (g', ls') ->
   pc (ls' t) = Idle -> (length (prog (ls' t)) < length (prog (ls t)))%nat ->
   (forall i, i < cap g ->
-     rgen (ls' t) i = gens g i /\ (odd (gens g i) = true -> rdata (ls' t) i = datas g i) /\
-     (odd (gens g i) = true <-> cells g i <> EMPTY)) /\
+     rgen (ls' t) i = gens g i /\ (odd (gens g i) = true -> rdata (ls' t) i = datas g i)) /\
   rchange (ls' t) = change g /\
   gens g' = gens g /\ datas g' = datas g /\ cells g' = cells g /\ change g' = change g.
 Proof. exact quiescent_exact. Qed.
@@ -145,18 +203,12 @@ Print Assumptions c10_refresh_unchanged.
 
 (* the same facts at any reachable state in which every thread is at Idle or inside update_state *)
 Theorem c10_quiet_snapshot_is_container : forall c d0 d1 d2 progs g ls t i,
-  crash_free progs -> reachable step (init c d0 d1 d2 progs) (g, ls) ->
-  (forall u, reader_pc (pc (ls u))) ->
+  crash_ok progs -> reachable step (init c d0 d1 d2 progs) (g, ls) ->
+  (forall u, reader_pc (pc (ls u))) -> (forall u, dirty (ls u) = false) ->
   pc (ls t) = Idle -> rchange (ls t) = change g -> i < cap g ->
   rgen (ls t) i = gens g i /\ (odd (gens g i) = true -> rdata (ls t) i = datas g i).
 Proof. intros. eapply quiet_sync; eauto. eapply inv2_reach; eauto. Qed.
 Print Assumptions c10_quiet_snapshot_is_container.
-Theorem c10_quiet_listed_iff_owned : forall c d0 d1 d2 progs g ls i,
-  crash_free progs -> reachable step (init c d0 d1 d2 progs) (g, ls) ->
-  (forall u, reader_pc (pc (ls u))) ->
-  (odd (gens g i) = true <-> cells g i <> EMPTY).
-Proof. intros. eapply quiet_live; eauto. eapply inv2_reach; eauto. Qed.
-Print Assumptions c10_quiet_listed_iff_owned.
 
 (* non-vacuity: cap 2; the writer runs a1,a2,r0 to completion while the reader is idle (so the
    reader's state is stale: change counter 0 against 3); then only the reader runs: its first
@@ -165,8 +217,8 @@ Definition qx_progs (t : nat) : list cop :=
   match t with O => [CAdd 1 None; CAdd 2 None; CRem 0 None] | S O => [CUpd; CUpd] | _ => [] end.
 Definition qx_start := fst (run step (repeat 0%nat 60) (init 2 7 8 9 qx_progs)).
 Example c10_quiescent_nonvacuous :
-  crash_free qx_progs /\ reachable step (init 2 7 8 9 qx_progs) (fst qx_start, snd qx_start) /\
-  (forall u, pc (snd qx_start u) = Idle) /\
+  crash_ok qx_progs /\ reachable step (init 2 7 8 9 qx_progs) (fst qx_start, snd qx_start) /\
+  (forall u, pc (snd qx_start u) = Idle /\ dirty (snd qx_start u) = false) /\
   (forall u, In u (repeat 1%nat 9) -> upd_only (prog (snd qx_start u)) = true) /\
   let c' := fst (run step (repeat 1%nat 9) (fst qx_start, snd qx_start)) in
   pc (snd c' 1%nat) = Idle /\ (length (prog (snd c' 1%nat)) < length (prog (snd qx_start 1%nat)))%nat /\
@@ -175,7 +227,7 @@ Example c10_quiescent_nonvacuous :
 Proof.
   split; [intros [|[|t]]; reflexivity|].
   split; [exists (repeat 0%nat 60); unfold qx_start; rewrite <- surjective_pairing; reflexivity|].
-  split; [intros [|[|u]]; vm_compute; reflexivity|].
+  split; [intros [|[|u]]; vm_compute; auto|].
   split; [intros u Hin; apply repeat_spec in Hin; subst u; vm_compute; reflexivity|].
   vm_compute. repeat split; auto.
 Qed.
